@@ -17,6 +17,7 @@
 EXTENDS FileSpecCommon, Json
 
 CONSTANTS Strings,      \* attribute strings ('+'-separated token sequences)
+          OpsFrom,      \* the strings after which operations are applied (the others are only constructed)
           Others,       \* right-hand sides of &= and |= (field sets)
           MaxOps, ExportHist
 
@@ -72,7 +73,7 @@ Constructed == /\ pc = "constructed" /\ pc' = "ready" /\ UNCHANGED <<src, m, acc
 Thrown == /\ pc = "thrown" /\ pc' = "done" /\ UNCHANGED <<src, m, acc, q, thrown, S, nops>>
           /\ Rec("construct", src, [error |-> "invalid_argument", item |-> Head(q)])
 
-Go == pc = "ready" /\ nops < MaxOps
+Go == pc = "ready" /\ nops < MaxOps /\ src \in OpsFrom
 SetField == /\ Go /\ \E f \in MdFields, b \in BOOLEAN :
                /\ m' = IF b THEN BitOr(m, f) ELSE BitClear(m, f)
                /\ S' = IF b THEN S \cup {f} ELSE S \ {f}
@@ -113,7 +114,9 @@ Toks == {"version", "timestamp", "changeset", "uid", "user", "", "all", "none", 
 Words == {<<w>> : w \in {"all", "true", "yes", "none", "false", "no", "Version", "ALL", "version ", "foo"}}
 StringsAll == UNION {[1..l -> Toks] : l \in 0..3} \cup Words \cup {<<"version", "timestamp", "changeset", "uid", "user">>,
               <<"user", "uid", "changeset", "timestamp", "version">>, <<"version", "timestamp", "uid", "user">>, <<"", "", "", "user">>}
-StringsFew == {<<>>, <<"all">>, <<"none">>, <<"version", "timestamp">>, <<"user", "", "uid">>, <<"changeset">>, <<"no">>}
+StringsFew == {DefaultSrc, <<>>, <<"all">>, <<"none">>, <<"version", "timestamp">>, <<"user", "", "uid">>, <<"changeset">>, <<"no">>}
+StringsFour == {DefaultSrc, <<>>, <<"none">>, <<"version", "timestamp">>, <<"user", "", "uid">>}
+StringsEvery == StringsAll \cup {DefaultSrc}
 OthersAll == SUBSET MdFields
 OthersFew == {{}, MdFields, {"version", "user"}, {"timestamp", "changeset", "uid"}, {"uid"}}
 =============================================================================
